@@ -194,7 +194,8 @@ fn main() {
         Some("matrix-probe") => {
             // for each native-matrix template: how many of N small programs differ under aggressive GC
             let n: u64 = args.get(2).and_then(|s| s.parse().ok()).unwrap_or(200);
-            for k in 0..24usize {
+            let from: usize = args.get(3).and_then(|s| s.parse().ok()).unwrap_or(0);
+            for k in from..proggen::MATRIX_N {
                 let mut bad = 0;
                 let mut first: Option<String> = None;
                 for seed in 0..n {
@@ -216,6 +217,28 @@ fn main() {
                     }
                 }
                 println!("template {:2}: {}/{} differ  {}", k, bad, n, first.unwrap_or_default());
+            }
+            0
+        }
+        Some("matrix-show") => {
+            // debug: run every extended template standalone (fresh inputs made in a callee) and print
+            // its value without GC pressure and whether threshold-1 GC changes it
+            for (i, tpl) in proggen::MATRIX_EXT.iter().enumerate() {
+                let k = i + 24;
+                let body = tpl.replace("@A", "__mk(4)").replace("@N", "4").replace("@S", "(\"ab\" + \"cd\")");
+                let src = format!(
+                    "const __log: string[] = [];\n{}\nfunction __mk(n: number): any[] {{ const out: any[] = []; for (let i = 0; i < n; i++) {{ out.push({{ v: i * 2, p: {{ q: \"s\" + i }} }}); }} return out; }}\nfunction __run(): any {{ return {}; }}\nconst __r: any = __run();\nconst __junk: any[] = []; for (let i = 0; i < 6; i++) {{ __junk.push({{ z: i, s: \"x\" + i, a: [i] }}); }}\n__show(__r)",
+                    proggen::SHOW_PRELUDE, body
+                );
+                let mk = |gc: host::GcSched| host::RunSpec {
+                    source: src.clone(), path: None, modules: Default::default(), answers: Default::default(), driver: host::Driver::Step, gc,
+                    tape: rng::Tape::from_vec(vec![]), fuel: 3_000_000, clock_start: 0, random_seed: 1, withhold_imports: false, linked_promises: false,
+                    host_activity_pm: 0, internal_sources: Default::default(),
+                };
+                let base = host::run_solo(&mk(host::GcSched::off()));
+                let gc = host::run_solo(&mk(host::GcSched::threshold(1)));
+                let verdict = if gc.result != base.result || !gc.stale.is_empty() { format!("DIFFERS stale={} got {}", gc.stale.len(), gc.result.chars().take(200).collect::<String>()) } else { "same".into() };
+                println!("{:2}: {}\n      {}", k, base.result.chars().take(260).collect::<String>(), verdict);
             }
             0
         }
